@@ -8,6 +8,7 @@ R2  selection is arg-max over every chip channel except the already chosen prima
 R3  eviction is confined: prepareChipChannelForNewNote(c) returns at once for a channel without users and every
     kill/evacuate call it makes names channel c.
 """
+import collections
 from ..core import *
 from ..logic import *
 from ..e2 import *
@@ -18,7 +19,7 @@ from .. import build
 PROP = 'C06'
 RULES = [
     Rule('C06.R1', 'score ranges: idle > single pedal-held user > single key-down user; each further user lowers the score', 4),
-    Rule('C06.R1b', 'note ageing advances in real time (s * 1e6 us per tick, subtracted as is)', 2),
+    Rule('C06.R1b', 'note ageing advances in real time (s * 1e6 us per tick, subtracted as is; the audio loops tick no more than the time of the block they render)', 4),
     Rule('C06.R2', 'the candidate loop keeps the greatest score over all channels except the chosen primary', 3),
     Rule('C06.R3', 'eviction touches only the chosen channel and nothing at all when it has no users', 3),
     Rule('C06.R4', 'a note takes a second chip channel only when its two voices differ, and the instrument converters leave the two voices of a single-voice instrument equal', 2),
@@ -171,6 +172,8 @@ def analyse(facts, tier):
     obls.append(Obl('C06.R1b', aa.name, 'ages decrease by exactly the elapsed time', aa.loc, 'discharged' if subs >= 2 else 'finding',
                     why='%d age fields updated as age - us' % subs if subs >= 2 else 'ageing does not subtract the elapsed microseconds from both ages'))
 
+    obls += r1b_audio_period(facts)
+
     # ---- R2 arg-max
     non = facts.fn('OPNMIDIplay::realTime_NoteOn')
     best = None
@@ -300,4 +303,94 @@ def r4(facts):
                            'no store to either voice after op[1] = op[0]'))
     if n < 1:
         raise build.AnalysisBroken('C06.R4: the voice-mirroring statement op[1] = op[0] was not found in any converter')
+    return out
+
+
+def r1b_audio_period(facts):
+    """the audio loops render at most CAP frames per round (`(n > CAP) ? CAP : n`) and then tick the note ageing / the sequencer by
+    `eat_delay`.  Ageing follows the rendered audio only if eat_delay never exceeds the time of CAP frames: eat_delay must be
+    min(.., setup.maxdelay) and maxdelay must be defined as CAP / PCM_RATE."""
+    out = []
+    def minlike(e):
+        """(a < M ? a : M) and mirror images -> (a, M) shown"""
+        e = strip(e)
+        if e is None or e.get('k') != 'ConditionalOperator':
+            return None
+        lits = [f for f in literals(e['cnd'], True) if f[0] == 'cmp']
+        if len(lits) != 1:
+            return None
+        _, op, cl, cr = lits[0]
+        l, r = show(strip(e['l'])), show(strip(e['r']))
+        a, b = show(strip(cl)), show(strip(cr))
+        if op in ('<', '<=') and (l, r) == (a, b):
+            return strip(e['l']), strip(e['r'])
+        if op in ('>', '>=') and (l, r) == (b, a):
+            return strip(e['l']), strip(e['r'])
+        return None
+    caps = set()
+    n = 0
+    for name in ('opn2_playFormat', 'opn2_generateFormat'):
+        fn = facts.fns.get(name)
+        fn = fn[0] if fn else None
+        if fn is None or fn.tree is None:
+            continue
+        defs = collections.defaultdict(list)
+        for b, j, st in fn.cfg.stmts():
+            if st['s'].get('k') == 'DeclStmt':
+                for v in st['s']['decls']:
+                    if v.get('init') is not None:
+                        defs[v['id']].append(v['init'])
+            for x in walk(st['s']):
+                ap = assign_parts(x)
+                if ap and strip(ap[0]).get('k') == 'DeclRefExpr':
+                    defs[strip(ap[0])['id']].append(ap[1])
+        # frame cap of one round
+        for vid, ds in defs.items():
+            for d in ds:
+                d = strip(d)
+                if d.get('k') == 'ConditionalOperator':
+                    for arm in (d['l'], d['r']):
+                        c = const_of(arm)
+                        if c is not None and c >= 64 and any(const_of(y) == c for y in walk(d['cnd'])):
+                            caps.add(c)
+        for b, j, st in fn.cfg.stmts():
+            for x in calls_in(st['s']):
+                if short(callee_name(x)) in ('TickIterators', 'Tick') and x.get('a'):
+                    a = strip(x['a'][0])
+                    n += 1
+                    ds = defs.get(a.get('id'), []) if a.get('k') == 'DeclRefExpr' else [a]
+                    ok = bool(ds)
+                    for d in ds:
+                        m = minlike(d)
+                        if not (m and any(y.get('k') == 'MemberExpr' and short(y['n']) == 'maxdelay' for arm in m for y in walk(arm))):
+                            ok = False
+                    out.append(Obl('C06.R1b', fn.name, '%s(%s)' % (short(callee_name(x)), show(a)[:20]), st['loc'], 'discharged' if ok else 'finding',
+                                   why='the period is min(.., setup.maxdelay)' if ok else
+                                   'the period handed to %s is not capped by setup.maxdelay while one round renders at most the capped block: with large requests the note ages (and the song) run ahead of the rendered audio, so pedal-held notes out-score idle channels early' % short(callee_name(x))))
+    if n < 2:
+        if facts.view in ('noSEQ',) and n >= 1:
+            pass
+        else:
+            raise build.AnalysisBroken('C06.R1b: tick calls of the audio loops not found')
+    # maxdelay = CAP / PCM_RATE
+    nm = 0
+    for fn in facts.all_fns():
+        if not fn.name.startswith('OPNMIDIplay::') or fn.tree is None:
+            continue
+        for b, j, st in fn.cfg.stmts():
+            for x in walk(st['s']):
+                ap = assign_parts(x)
+                if ap and strip(ap[0]).get('k') == 'MemberExpr' and short(strip(ap[0])['n']) == 'maxdelay':
+                    nm += 1
+                    r = strip(ap[1])
+                    num = strip(r.get('l')) if r.get('k') == 'BinaryOperator' and r.get('op') == '/' else None
+                    c = None
+                    if num is not None:
+                        c = num.get('fc') if num.get('fc') is not None else const_of(num)
+                    ok = c is not None and caps and all(c <= cap for cap in caps) and any(y.get('k') == 'MemberExpr' and short(y['n']) == 'PCM_RATE' for y in walk(r.get('r')))
+                    out.append(Obl('C06.R1b', fn.name, 'maxdelay = %s' % show(r)[:40], st['loc'], 'discharged' if ok else 'finding',
+                                   why='the time of %s frames, the per-round render cap %s' % (c, sorted(caps)) if ok else
+                                   'setup.maxdelay is not the time of the per-round render cap %s: the tick period can exceed the rendered block' % sorted(caps)))
+    if nm < 1:
+        raise build.AnalysisBroken('C06.R1b: definition of Setup::maxdelay not found')
     return out
